@@ -217,7 +217,7 @@ class RunTest:
         :return: 'exception_caught' if we catch one of the exceptions that
             have handlers in 'handlers', otherwise raise the error.
         """
-        if exc_info[0] is MultipleExceptions:
+        if exc_info[0] is MultipleExceptions and exc_info[1].args:
             for sub_exc_info in exc_info[1].args:
                 self._got_user_exception(sub_exc_info, tb_label)
             return self.exception_caught
